@@ -362,7 +362,7 @@ impl Scenario for Slice {
             Focus::C03 => (
                 "exploration",
                 "one run = a seeded medium (records from the real writer and from the foreign-ECU stub, damaged by 0..6 faults of the whole catalogue incl. > 64 KiB tails, or arbitrary bytes) delivered through a ScriptedRead into a streaming slice consumer (dlt_message with and without filter, pattern resync), an indexer (dlt_consume_msg / skip_storage_header + random-access parses), a non-verbose decode stage (construct_arguments with a drawn signal list, dlt_zero_terminated_string over payload windows) and 'use' of every returned message (as_bytes, byte_len, Argument::len/as_bytes/valid, UTF-8 re-check). Every call is wrapped in catch_unwind; overflow checks and debug assertions are on. distinct = (medium, mode, delivery script) hash; non-trivial = at least one message returned AND (a delivery boundary inside the medium OR a fired fault).",
-                vec!["mode_any", "mode_payload", "mode_junk", "mode_clean", "mode_soup", "mode_dialect", "F-TAIL", "F-PFX=FFFF+tail", "nv_construct_calls", "nv_string_calls", "consume_calls", "search_calls", "items_used"],
+                vec!["mode_any", "mode_payload", "mode_junk", "mode_clean", "mode_soup", "mode_dialect", "mode_amp", "F-TAIL", "F-PFX=FFFF+tail", "F-AMP", "F-ORPHAN", "idle_polls", "nv_construct_calls", "nv_string_calls", "consume_calls", "search_calls", "items_used"],
                 vec!["parse_errors", "incomplete", "resyncs", "nv_construct_ok", "nv_construct_err", "filtered_out", "indexed"],
             ),
             Focus::C04 => (
@@ -374,13 +374,13 @@ impl Scenario for Slice {
             Focus::C05 => (
                 "fault_enumeration",
                 "cut mode: one run = one well-formed record (real writer or foreign stub, up to ~64 KiB) and EVERY truncation offset 0..len-1 of it, each judged for dlt_message (no filter, and with the run's filter) and, in storage mode, dlt_consume_msg; evaluations counts the cuts. clean mode: a clean multi-record stream delivered by a scripted source into the streaming consumer, asserting 'incomplete with a safe hint' whenever the buffer head is a proper prefix of the next record. distinct = (record / medium, delivery script) hash; non-trivial = record longer than its fixed header (cut mode) or at least one record returned with a delivery boundary inside the medium (clean mode). Exhaustive per record over cut positions; records themselves are sampled.",
-                vec!["mode_cut", "mode_clean", "cut_in_fixed_header", "cut_in_optional_headers", "cut_in_payload", "dynamic_prefix_verdicts"],
+                vec!["mode_cut", "mode_clean", "cut_in_fixed_header", "cut_in_optional_headers", "cut_in_payload", "dynamic_prefix_verdicts", "idle_polls"],
                 vec!["incomplete_with_hint", "incomplete_without_hint", "cut_in_storage_header"],
             ),
             Focus::C06 => (
                 "exploration",
                 "one run = a storage-mode stream with pattern-free junk blocks (0..64 bytes, sometimes 4 KiB; biased to end in D / DL / DLT, to contain DLT\\0 and DDLT) before, between and after records, delivered through a ScriptedRead into the streaming consumer (pattern resync). On every buffer the consumer holds: forward_to_next_storage_header == naive first-match search (offset, remainder pointer); junk ++ m ++ s parses like m ++ s; every record wholly delivered is recovered in order exactly once. distinct = (medium, mode, delivery script) hash; non-trivial = at least one record recovered AND (a delivery boundary inside the medium OR a junk block present).",
-                vec!["mode_junk", "F-JUNK", "search_calls", "search_calls_big_buffer", "search_skipped_junk", "junk_blocks_judged", "junk_records_expected", "junk_filtered_consumers", "search_partial_pattern_at_end"],
+                vec!["mode_junk", "F-JUNK", "junk_is_bare_record", "search_calls", "search_calls_big_buffer", "search_skipped_junk", "junk_blocks_judged", "junk_records_expected", "junk_filtered_consumers", "search_partial_pattern_at_end"],
                 vec!["resyncs", "junk_run_discarded"],
             ),
             Focus::C16 => (
@@ -466,7 +466,7 @@ impl Scenario for C12 {
             "which of the two answers (model / refusal) a damaged file gets is not judged, only counted".into(),
         ];
         e.fault_kinds = vec!["F-TRUNC", "F-FLIP", "F-BYTE", "F-DROP", "F-DUP", "F-NUM", "F-STRUCT", "F-REF", "F-NEST", "F-DEEP", "F-FILE", "F-UTF16"];
-        e.harness_probes = vec!["enumerated_cuts", "enumerated_documents", "doc_shipped", "doc_generated", "F-TRUNC", "F-STRUCT", "F-REF", "F-NEST", "F-DEEP", "F-FILE", "F-NUM", "load_clean"];
+        e.harness_probes = vec!["enumerated_cuts", "enumerated_documents", "doc_shipped", "doc_generated", "F-TRUNC", "F-STRUCT", "F-STRUCT+cut", "F-REF", "F-NEST", "F-DEEP", "F-FILE", "F-NUM", "load_clean"];
         e.crate_probes = vec!["answer_model", "answer_refusal"];
         e.step_keys = vec!["xml_steps"];
         e.exhaustive = false;
